@@ -15,7 +15,13 @@ def write_crate(name, lib_rs):
                 "[lints.rust]\nunexpected_cfgs = { level = \"allow\" }\n")
     with open(os.path.join(d, "src", "lib.rs"), "w") as f:
         # the extractor's structural markers have no meaning outside the Verus assembler
-        f.write("#[allow(unused_macros)] macro_rules! __vx_loop { ($k:expr) => {}; }\n#[allow(unused_macros)] macro_rules! __vx_at { ($k:expr) => {}; }\n" + lib_rs)
+        macros = "#[allow(unused_macros)] macro_rules! __vx_loop { ($k:expr) => {}; }\n#[allow(unused_macros)] macro_rules! __vx_at { ($k:expr) => {}; }\n"
+        lines = lib_rs.split("\n")
+        k = 0
+        for i, ln in enumerate(lines):
+            if ln.startswith("#!["):
+                k = i + 1
+        f.write("\n".join(lines[:k]) + ("\n" if k else "") + macros + "\n".join(lines[k:]))
     return d
 
 
@@ -61,8 +67,8 @@ def run_kani(crate_dir, harness, solver=None, timeout=900, extra=None):
     if m:
         r.checks = int(m.group(2))
     # failed checks
-    for blk in re.finditer(r"Check \d+: (\S+)\n\s+- Status: (\w+)\n\s+- Description: \"([^\"]*)\"", out):
-        name, st, desc = blk.group(1), blk.group(2), blk.group(3)
+    for blk in re.finditer(r"Check \d+: (\S+)\n\s+- Status: (\w+)\n\s+- Description: \"(.*)\"", out):
+        name, st, desc = blk.group(1), blk.group(2), blk.group(3).replace('\\"', "").strip()
         if st == "FAILURE":
             r.failed_checks.append(f"{name}: {desc}")
         if ".cover." in name:
@@ -78,8 +84,8 @@ def _parse_section(name, txt):
     m = re.search(r"\*\* (\d+) of (\d+) failed", txt)
     if m:
         r.checks = int(m.group(2))
-    for blk in re.finditer(r"Check \d+: (\S+)\n\s+- Status: (\w+)\n\s+- Description: \"([^\"]*)\"", txt):
-        cname, st, desc = blk.group(1), blk.group(2), blk.group(3)
+    for blk in re.finditer(r"Check \d+: (\S+)\n\s+- Status: (\w+)\n\s+- Description: \"(.*)\"", txt):
+        cname, st, desc = blk.group(1), blk.group(2), blk.group(3).replace('\\"', "").strip()
         if st == "FAILURE":
             r.failed_checks.append(f"{cname}: {desc}")
         if ".cover." in cname:
